@@ -350,6 +350,8 @@ def run(rep):
         if len(rep.violations) >= 10:
             break
     rep.notes["concurrent_executions"] = ncc
+    if len(rep.violations) < 10:
+        long_history(rep)
     # the whole stack of one interface: real node, Worker loops, Bromelia.main, per-message threads (spec/Stack.tla)
     if len(rep.violations) < 10:
         from . import stack
@@ -385,6 +387,11 @@ def replay(rep, path):
     if r.get("kind") == "stack":
         from . import stack
         return stack.replay(rep, r)
+    if r.get("kind") == "long-history":
+        long_history(rep)
+        rep.states, rep.transitions = 1, 1
+        rep.sample(r)
+        return rep.finish()
     if r.get("kind") == "concurrent":
         from engine import vsched
         vsched.install(0)
@@ -410,6 +417,45 @@ def replay(rep, path):
     rep.states, rep.transitions = 1, 1
     rep.sample(r)
     return rep.finish()
+
+
+def long_history(rep):
+    """One application object serving a long run of requests whose route function fails (more of them than any of the library's
+    thresholds: 40 / 50), then healthy ones, on two applications: every request still gets exactly one answer."""
+    rng = random.Random(rep.seed * 7919 + 131)
+    router = Router()
+    nfail = 45 if rep.tier == "quick" else 130
+    state = {"n": 0}
+
+    def failing(request):
+        state["n"] += 1
+        if state["n"] <= nfail:
+            raise [ConnectionError("backend down"), KeyError("subscriber"), ValueError("bad"), RuntimeError()][state["n"] % 4]
+        return make_answer(request, rng)
+
+    def healthy(request):
+        return make_answer(request, rng)
+    router.register(app_bytes("a1"), cmd_bytes("c1"), failing)
+    router.register(app_bytes("a2"), cmd_bytes("c2"), healthy)
+    for k in range(1, nfail + 4):
+        pair = ("a1", "c1") if k <= nfail + 1 or k % 2 else ("a2", "c2")
+        req = make_request(pair[0], pair[1], k, rng)
+        rep.case(("long-history", k))
+        replay = {"kind": "long-history", "k": k}
+        try:
+            with guard(20, "callback_route"):
+                queued, exc = router.dispatch(req)
+        except BaseException as e:
+            rep.violation(f"after {k - 1} requests on one application object ({min(k - 1, nfail)} of them failed in their route function): callback_route for request {k} "
+                          f"raised {type(e).__name__}: {e}", replay)
+            return
+        want = (5012 if k <= nfail and pair == ("a1", "c1") else 2001).to_bytes(4, "big")
+        if len(queued) != 1 or not queued[0].has_avp("result_code_avp") or queued[0].result_code_avp.data != want \
+                or queued[0].header.hop_by_hop != req.header.hop_by_hop:
+            got = [(m.result_code_avp.data.hex() if m.has_avp("result_code_avp") else None) for m in queued]
+            rep.violation(f"request {k} of a long run ({min(k - 1, nfail)} earlier requests failed in their route function): {len(queued)} answer(s) with Result-Code "
+                          f"{got}, expected exactly one with {want.hex()}", replay)
+            return
 
 
 # ------------------------------------------------------------------------------------------- requests in flight together
